@@ -9,6 +9,7 @@ from ..decks import WORLD_SURF
 from ..judge import region_agreement, summarise
 
 ID = 'C15'
+UPSTREAM_DECKS = True
 LEVEL = 'exploration'
 RULE = ('decks with 2-6 LIKE n BUT cells overriding subsets of {mat, rho, u, '
         'fill (+transformation), trcl, imp}, chains LIKE-of-LIKE to depth 3, '
